@@ -12,6 +12,7 @@ import (
 	"sync/atomic"
 	"time"
 
+	"github.com/containerd/nri/pkg/net/multiplex"
 	"pgregory.net/rapid"
 
 	"nriverif/ev"
@@ -25,6 +26,9 @@ type C11StormRound struct {
 	Closers  int    `json:"closers"` // goroutines calling Mux.Close (local: at the same moment; otherwise afterwards)
 	Side     int    `json:"side"`    // the mux under test
 	KeepOpen int    `json:"keep"`    // the last KeepOpen connections are not closed individually
+	// Openers: this many goroutines keep opening fresh ids (Open and Dialer in turn) on the mux
+	// under test while it is being closed, and start a Read on every connection they get
+	Openers int `json:"openers,omitempty"`
 }
 
 type C11Storm struct {
@@ -35,13 +39,14 @@ func genC11Storm(t *rapid.T) C11Case {
 	c := C11Case{Kind: "storm", QLen: genQLen(t), IDs: []uint32{1}}
 	c.Failure.Kind = "storm"
 	g := rapid.Custom(func(t *rapid.T) C11StormRound {
-		n := rapid.SampledFrom([]int{16, 32, 32, 48, 64, 64}).Draw(t, "n")
+		n := rapid.SampledFrom([]int{16, 32, 32, 48, 64, 64, 128, 256, 512}).Draw(t, "n")
 		return C11StormRound{N: n,
 			Readers:  rapid.IntRange(0, n).Draw(t, "readers"),
 			MuxClose: rapid.SampledFrom([]string{"local", "local", "peer", "cut"}).Draw(t, "mux"),
 			Closers:  rapid.SampledFrom([]int{1, 1, 2, 4}).Draw(t, "closers"),
 			Side:     rapid.IntRange(0, 1).Draw(t, "side"),
-			KeepOpen: rapid.SampledFrom([]int{0, 0, 1, 4}).Draw(t, "keep")}
+			KeepOpen: rapid.SampledFrom([]int{0, 0, 1, 4}).Draw(t, "keep"),
+			Openers:  rapid.SampledFrom([]int{0, 2, 3, 4, 4}).Draw(t, "openers")}
 	})
 	c.Storm = &C11Storm{Rounds: rapid.SliceOfN(g, 12, tierPick(24, 40)).Draw(t, "storm_rounds")}
 	c.Delays = genDelays(t, 3)
@@ -67,6 +72,10 @@ func runC11Storm(c C11Case) (ev.Outcome, bool) {
 		if rd.Readers > 0 {
 			o.NonTrivial = true
 		}
+		if rd.Openers > 0 && !seen["openers"] {
+			seen["openers"] = true
+			o.Classes = append(o.Classes, "storm_opens_racing_close")
+		}
 		if bad != "" {
 			o.Fail = bad
 			if hang {
@@ -80,7 +89,7 @@ func runC11Storm(c C11Case) (ev.Outcome, bool) {
 }
 
 func stormRound(c C11Case, ri int, rd C11StormRound) (string, bool) {
-	n := min(max(rd.N, 1), 256)
+	n := min(max(rd.N, 1), 1024)
 	ids := make([]uint32, n)
 	for i := range ids {
 		ids[i] = uint32(i + 1)
@@ -161,6 +170,50 @@ func stormRound(c C11Case, ri int, rd C11StormRound) (string, bool) {
 			parties++
 		}
 	}
+	// openers racing the close: fresh ids, a Read on each connection they get
+	var stop atomic.Bool
+	var owg, lwg sync.WaitGroup
+	var opened atomic.Int32
+	for oi := 0; oi < min(max(rd.Openers, 0), 8); oi++ {
+		owg.Add(1)
+		go func(oi int) {
+			defer owg.Done()
+			defer guard("opener")
+			ready.Add(1)
+			for k := 0; !goFlag.Load(); k++ {
+				if k > 2000 {
+					runtime.Gosched()
+				}
+			}
+			for k := 0; k < 400; k++ {
+				last := stop.Load() // one more open after the close has returned
+				id := uint32(100000 + oi*1000 + k)
+				var h net.Conn
+				var err error
+				if k%2 == 0 {
+					h, err = p.m[X].Open(multiplex.ConnID(id))
+				} else {
+					h, err = p.m[X].Dialer(multiplex.ConnID(id))("", "")
+				}
+				if err == nil && h != nil {
+					opened.Add(1)
+					lwg.Add(1)
+					go func() {
+						defer lwg.Done()
+						defer guard("late reader")
+						buf := make([]byte, 16)
+						if nn, err := h.Read(buf); err == nil {
+							failf("%s: Read on id=%d, opened while the multiplexer was being closed, returned %d bytes although nothing was written", where, id, nn)
+						}
+					}()
+				}
+				if last {
+					return
+				}
+			}
+		}(oi)
+		parties++
+	}
 	for k := 0; ready.Load() < int32(parties); k++ {
 		if k > 2000 {
 			runtime.Gosched()
@@ -180,6 +233,10 @@ func stormRound(c C11Case, ri int, rd C11StormRound) (string, bool) {
 	if !waitFor(&wg) {
 		return fmt.Sprintf("%s: the concurrent Close calls of the connections and of the multiplexer did not all return within %v", where, hangAfter), true
 	}
+	stop.Store(true)
+	if !waitFor(&owg) {
+		return fmt.Sprintf("%s: Open/Dialer calls racing the Close did not return within %v", where, hangAfter), true
+	}
 	// whoever brought the mux down, a later Close of both ends returns, and so do all readers
 	var cwg sync.WaitGroup
 	for k := 0; k < max(rd.Closers, 1); k++ {
@@ -190,6 +247,9 @@ func stormRound(c C11Case, ri int, rd C11StormRound) (string, bool) {
 	go func() { defer cwg.Done(); defer guard("mux Close"); _ = p.m[Y].Close() }()
 	if !waitFor(&cwg) {
 		return fmt.Sprintf("%s: Close of the multiplexers after the storm did not return within %v", where, hangAfter), true
+	}
+	if !waitFor(&lwg) {
+		return fmt.Sprintf("%s: a Read on a connection that was opened while the multiplexer was being closed did not return within %v (%d connections were opened during the storm)", where, hangAfter, opened.Load()), true
 	}
 	if !waitFor(&rwg) {
 		return fmt.Sprintf("%s: readers blocked on connections of the closed multiplexer did not all return within %v", where, hangAfter), true
